@@ -123,6 +123,20 @@ CHECKS.update({
     ),
 })
 
+CHECKS.update({
+    "C09": (
+        "Hypothesis-generated three-phase histories (record >=2 terminals sharing tensors; clear/backward/in-place/re-use; final backward) vs complex-step reference of the recorded computation",
+        "Generated search over histories in which part of L's graph is cleared before L.backward(): the outcome must be "
+        "InvalidBackprop or gradients equal to the reference gradient of the forward computation as recorded at the end "
+        "of phase A; tensors overwritten afterwards may not receive a new gradient; other exception types are "
+        "violations. Two genuine, test-pinned defects are recorded as known findings with narrow history signatures. "
+        "Exploration only.",
+        "Reference = NumPy interpreter on the phase-A prefix; overwritten tensors detected by data identity on the "
+        "MyGrad side; an InvalidBackprop from an intermediate backward is accepted.",
+        "DESIGN.md §3 C09",
+    ),
+})
+
 NOT_YET = {
 }
 
